@@ -1092,6 +1092,26 @@ struct InvokeWorld : World
     }
     Expect e;
     size_t before = g_glog.size();
+    if (op.a[1] & 4) {
+      // the macro form with a sandbox expression that has a side effect and designates another instance when it is
+      // evaluated again (an iterator over a pool of sandboxes)
+      SbxM* other = nullptr;
+      for (auto& x : S)
+        if (&x != &m && x.created)
+          other = &x;
+      int evals = 0;
+      auto next_of_pool = [&]() -> Sandbox& {
+        evals++;
+        return evals == 1 || !other ? *m.sb : *other->sb;
+      };
+      Outcome o = attempt([&] { sandbox_invoke(next_of_pool(), f_void); });
+      C->probe("invocation_through_the_macro_with_an_expression_as_sandbox");
+      if (evals != 1)
+        C->violate("C11", "sandbox_expression_evaluated_more_than_once@void", "sandbox_invoke(expr, f): expr was evaluated %d times", evals);
+      else
+        judge(m, FN_VOID, o, before, e, "void");
+      return;
+    }
     Outcome o = attempt([&] { m.sb->invoke_sandbox_function(f_void); });
     judge(m, FN_VOID, o, before, e, "void");
   }
